@@ -74,15 +74,34 @@ class Node(object):
         return '%s%06d%s' % (self.kind[0], self.id, self.members if self.members is not None else '')
 
 
-def build_tree(ids, tabs, _depth=0):
+def replication_only(d, td):
+    m = td.get(d)
+    if not m:
+        return False
+    if len(m) == 1 and 100000 <= m[0] < 200000 and m[0] % 1000 != 0:
+        return True
+    return len(m) == 2 and 100000 <= m[0] < 200000 and m[0] % 1000 == 0 and m[1] // 1000 == 31
+
+
+def build_tree(ids, tabs, _depth=0, ncep=False):
     """FM-94: 1XXYYY replicates the next XX descriptors (the class-31 factor that follows a delayed replication
-    is not counted); 3XXYYY expands to its Table D members."""
+    is not counted); 3XXYYY expands to its Table D members.  ncep=True: a sequence that consists of a replication
+    descriptor only (NCEP in-stream tables, e.g. 360001 = 101000 031002) stands for that replication, which then owns
+    the descriptors that follow the sequence."""
     tb, td = tabs
     if _depth > 30:
         raise RefError('sequence nesting too deep')
     out = []
     i = 0
     ids = list(ids)
+    if ncep:
+        flat = []
+        for d in ids:
+            if d >= 300000 and replication_only(d, td):
+                flat.extend(td[d])
+            else:
+                flat.append(d)
+        ids = flat
     while i < len(ids):
         d = ids[i]
         i += 1
@@ -94,7 +113,7 @@ def build_tree(ids, tabs, _depth=0):
         elif f == 3:
             if d not in td:
                 raise RefError('undefined sequence %06d' % d)
-            out.append(Node('seq', d, members=build_tree(td[d], tabs, _depth + 1)))
+            out.append(Node('seq', d, members=build_tree(td[d], tabs, _depth + 1, ncep)))
         elif f == 1:
             factor = None
             if y == 0:
@@ -106,7 +125,7 @@ def build_tree(ids, tabs, _depth=0):
             if len(body) < x:
                 raise RefError('replication %06d owns %d descriptors, %d left' % (d, x, len(body)))
             i += x
-            out.append(Node('rep', d, members=build_tree(body, tabs, _depth + 1), factor=factor))
+            out.append(Node('rep', d, members=build_tree(body, tabs, _depth + 1, ncep), factor=factor))
         else:
             raise RefError('bad descriptor %d' % d)
     return out
@@ -793,10 +812,12 @@ class RefMessage(object):
 
 
 class RefDecoder(object):
-    def __init__(self, data, tables_root=None, fallback=True):
+    def __init__(self, data, tables_root=None, fallback=True, tabs=None, ncep=False):
         self.data = data
         self.tables_root = tables_root
         self.fallback = fallback
+        self.tabs = tabs
+        self.ncep = ncep
 
     def decode(self, data_section=True):
         d = self.data
@@ -853,11 +874,11 @@ class RefDecoder(object):
         m.extents[4] = (start // 8, ln)
         m.data_start_bit = b.pos
         if data_section:
-            tabs = load_tables(s1['master_table_version'], s1['master_table_number'], self.tables_root,
-                               s1['originating_centre'], s1.get('originating_subcentre', 0), s1['local_table_version'],
-                               fallback=self.fallback)
+            tabs = self.tabs or load_tables(s1['master_table_version'], s1['master_table_number'], self.tables_root,
+                                            s1['originating_centre'], s1.get('originating_subcentre', 0), s1['local_table_version'],
+                                            fallback=self.fallback)
             m.tabs = tabs
-            tree = build_tree(m.descriptors, tabs)
+            tree = build_tree(m.descriptors, tabs, ncep=self.ncep)
             m.tree = tree
             m.subsets = []
             m.structures = []
@@ -1037,7 +1058,7 @@ class EncodeIO(object):
         return [None if v is None else int(v) for v in self.vals[0][self.k - n:self.k]]
 
 
-def ref_encode(sections, tables_root=None, edition=None):
+def ref_encode(sections, tables_root=None, edition=None, tabs=None, ncep=False):
     """sections: pybufrkit-style JSON (list of per-section value lists; optional section 2 simply absent).
     Lengths are recomputed.  -> bytes"""
     s0 = sections[0]
@@ -1101,10 +1122,10 @@ def ref_encode(sections, tables_root=None, edition=None):
     start = o.pos
     o.write(24, 0)
     o.write(8, 0)
-    tabs = load_tables(s1['master_table_version'], s1['master_table_number'], tables_root,
-                       s1['originating_centre'], s1.get('originating_subcentre', 0), s1['local_table_version'],
-                       fallback=False)
-    tree = build_tree(ids, tabs)
+    tabs = tabs or load_tables(s1['master_table_version'], s1['master_table_number'], tables_root,
+                               s1['originating_centre'], s1.get('originating_subcentre', 0), s1['local_table_version'],
+                               fallback=False)
+    tree = build_tree(ids, tabs, ncep=ncep)
     values = s4[2]
     info = []
     if compressed:
